@@ -342,15 +342,26 @@ def load_known_findings():
         out.setdefault(e['property'], []).append(e)
     return out
 
-def standard_proof_steps(v, prop, gens, vo_targets, bins):
-    """Steps 1-3 of the verdict protocol. Returns (coq_ok, harness_ok)."""
+def standard_proof_steps(v, prop, gens, vo_targets, bins, corr_targets=None):
+    """Steps 1-3 of the verdict protocol. vo_targets: the property theorems (Props/Cxx.vo);
+    corr_targets: model/spec/correspondence files, built separately so that the correspondence and the
+    failing-input search still run when a proof obligation breaks.
+    Returns (proofs_ok, harness_ok, unrecognised_table_rows); sets v.corr_ok, v.coq_error."""
     notes = ensure_all_gen()
     notes_g = gen_tables(gens)
     for n in notes_g: v.notes.append('translator: ' + n)
     unrec = [n for n in notes_g if 'unrecognised' in n or 'not found' in n or 'failed' in n or 'no arm' in n]
     v.obligation('tie1: translators recognise every table row (%s)' % ','.join(gens), not unrec, '; '.join(unrec)[:1000])
+    v.corr_ok = True
+    v.coq_error = None
+    if corr_targets:
+        cok, cout, cerr = coq_build(corr_targets)
+        v.corr_ok = cok
+        if not cok:
+            v.coq_error = cerr
+            v.obligation('coq build of the model/correspondence files %s' % ' '.join(corr_targets), False, json.dumps(cerr)[:1500])
     ok, out, err = coq_build(vo_targets)
-    v.coq_error = err
+    if not ok and v.coq_error is None: v.coq_error = err
     names = []
     if ok:
         names, ass, aok = audit_assumptions(prop)
